@@ -114,7 +114,7 @@ func runC20(c *Ctx, r *Report) {
 					r.Hold("R-C20.1", key, ret.Pos(), true, "returns the constant true after a successful datastore lookup")
 					continue
 				}
-				bs := backSlice(res, nil)
+				bs := backSliceOpt(res, nil, true)
 				dep := bs[sc]
 				r.Check(dep, "R-C20.1", key, ret.Pos(),
 					"the value returned after the datastore lookup depends on the datastore's answer",
